@@ -444,6 +444,10 @@ def check_image(table, markers, rec):
         if json.dumps(g) not in all_submitted_rows:
             out.append(("entry-never-submitted", {"entry": g[:5]}))
             break
+    # the reported end of the log is the last readable entry (otherwise the next append leaves a hole / overwrites)
+    st = rec.get("state") or {}
+    if got and st.get("last_log_index") is not None and st["last_log_index"] != got[-1][0]:
+        out.append(("reported-last-index-differs-from-last-readable-entry", {"reported": [st.get("last_log_index"), st.get("last_log_term")], "last_readable": got[-1][:3]}))
     for i, e in sorted(log.items()):
         if i <= max_ptr:
             continue
